@@ -1291,9 +1291,11 @@ impl ObjectFile {
         for (addr, linked_addr) in relocations {
             // TODO: handle case where the address needed is not found in block map
             // should really only occur from invalid manipulation of obj file
-            a_obj.get_mut(addr)
-                .unwrap_or_else(|| unreachable!("object file should have had address x{addr:04X} bound"))
-                .replace(linked_addr);
+            // The address is absent from the block map only if the object file was manipulated by hand
+            // (e.g., a deserialized file with a stray relocation entry); there is nothing to patch then.
+            if let Some(word) = a_obj.get_mut(addr) {
+                word.replace(linked_addr);
+            }
         }
 
         Ok(a_obj)
